@@ -39,9 +39,14 @@ namespace GeographicLib {
     static_assert(numeric_limits<long long>::digits >= 45,
                   "long long not wide enough to store 21600e9");
     const long long m = 60000000000LL;
+    real xr = floor(lon * real(m)), yr = floor(lat * real(m));
+    // The products lon * m and lat * m are rounded.  Make sure that a point
+    // just below a cell boundary isn't moved across it.
+    if (fma(lon, real(m), -xr) < 0) --xr;
+    if (fma(lat, real(m), -yr) < 0) --yr;
     long long
-      x = (long long)(floor(lon * real(m))) - lonorig_ * m,
-      y = (long long)(floor(lat * real(m))) - latorig_ * m;
+      x = (long long)(xr) - lonorig_ * m,
+      y = (long long)(yr) - latorig_ * m;
     int ilon = int(x / m); int ilat = int(y / m);
     char georef1[maxlen_];
     georef1[0] = lontile_[ilon / tile_];
